@@ -186,7 +186,10 @@ let op_eval (args : sx) : string =
       (match parsed_formula uc (ordering_of ord) cps with
        | Done p ->
            (match eval_f (eval_fuel_for cps) p.pf_form with
-            | Some b -> "(ok " ^ bdd_str b ^ " " ^ show_ids p.pf_vars ^ " " ^ show_ids p.pf_free ^ ")"
+            | Some b ->
+                let names = name_table uc (ordering_of ord) cps in
+                "(ok " ^ bdd_str b ^ " " ^ show_ids p.pf_vars ^ " " ^ show_ids p.pf_free ^ " ("
+                ^ String.concat " " (List.map (fun v -> show_name (name_of names v)) p.pf_vars) ^ "))"
             | None -> "(diverge)")
        | _ -> "(err)")
   | _ -> raise (Bad "eval")
@@ -202,22 +205,47 @@ let classify_tok (_ : sx) (real : string) (_ : string) : string =
 let classify_parse (_ : sx) (real : string) (_ : string) : string =
   if real = "(panic)" then "panic" else "grammar"
 let ids_of (x : sx) : nat list = List.map nat_atom (list_of x)
+(* all assignments of the given names *)
+let rec all_name_asgs = function
+  | [] -> [[]]
+  | w :: r -> List.concat_map (fun l -> [(w, true) :: l; (w, false) :: l]) (all_name_asgs r)
 let classify_eval (args : sx) (real : string) (model : string) : string =
   if real = "(panic)" then "panic"
   else
     let parse_res s = match (try Some (parse_sx s) with Bad _ -> None) with
-      | Some (L [A "ok"; b; vars; free]) -> `Ok (bdd_raw b, ids_of vars, ids_of free)
+      | Some (L [A "ok"; b; vars; free; names]) -> `Ok (bdd_raw b, ids_of vars, ids_of free, List.map name_of_sx (list_of names))
       | Some (L [A "err"]) -> `Err
       | Some (L [A "diverge"]) -> `Div
       | _ -> `Other in
     match parse_res real, parse_res model with
-    | `Ok (r, rv, rf), `Ok (m, mv, mf) ->
+    | `Ok (r, rv, rf, rn), `Ok (m, mv, mf, mn) ->
         let parts = ref [] in
         if not (robddb r) then parts := "shape" :: !parts;
         (match find_diff r m with Some w -> parts := ("sem " ^ show_alist w) :: !parts | None -> ());
-        if rv <> mv then parts := "vars" :: !parts;
+        if rv <> mv || rn <> mn then parts := "vars" :: !parts;
         if rf <> mf then parts := "free" :: !parts;
         if not (List.for_all (fun v -> List.mem v rf) (support r)) then parts := "leak" :: !parts;
+        (* C11: under an ordering the answer denotes the same function of the NAMED variables as under the default order *)
+        (match args with
+         | L [ord; txt] when list_of ord <> [] && List.length rv = List.length rn ->
+             let (uc, cps) = text_of txt in
+             (match parsed_formula uc [] cps with
+              | Done p0 ->
+                  (match eval_f (eval_fuel_for cps) p0.pf_form with
+                   | Some d0 ->
+                       let names0 = name_table uc [] cps in
+                       let nm0 = List.map (fun v -> (v, name_of names0 v)) p0.pf_vars in
+                       let nmr = List.combine rv rn in
+                       let all_names = List.sort_uniq compare (List.map snd nm0 @ rn) in
+                       if List.length all_names <= 12 then begin
+                         let bad = List.exists (fun asg ->
+                           let value tbl v = (match List.assoc_opt v tbl with Some w -> (try List.assoc w asg with Not_found -> false) | None -> false) in
+                           beval (value nmr) r <> beval (value nm0) d0) (all_name_asgs all_names) in
+                         if bad then parts := "byname" :: !parts
+                       end
+                   | None -> ())
+              | _ -> ())
+         | _ -> ());
         if !parts = [] then "holds" else String.concat " " (List.rev !parts)
     | `Err, `Ok _ | `Ok _, `Err -> "accept"
     | `Div, `Ok _ -> "no-result"
